@@ -595,6 +595,30 @@ pub fn generate(family: &str, seed: u64, count: usize, emit: &mut dyn FnMut(Stri
                 }
             }
         }
+        "trivia" => {
+            // the same values printed plainly and with trivia at every token boundary
+            for _ in 0..count {
+                let (p, ro) = loop {
+                    let p = gen_popts(&mut r);
+                    if let Some(ro) = compatible_ropts(&mut r, &p) { break (p, ro); }
+                };
+                let n = 1 + r.below(3);
+                // only values whose names are plain identifiers of that dialect (Appendix A `PlainFor`)
+                let vals: Vec<Value> = (0..n).map(|_| loop {
+                    let v = gen_value(&mut r, &VCFG_PLAIN, 3);
+                    if crate::oracle::plain_for(&p, &ro, &v) { break v; }
+                }).collect();
+                let mut a = Vec::new();
+                let mut b = Vec::new();
+                for (i, v) in vals.iter().enumerate() {
+                    if i > 0 { a.push(b' '); b.extend(gen_trivia(&mut r, true).bytes()); } else if r.chance(1, 2) { b.extend(gen_trivia(&mut r, false).bytes()); }
+                    print_with_trivia(&mut r, v, &p, 0, &mut a);
+                    print_with_trivia(&mut r, v, &p, 1, &mut b);
+                }
+                match r.below(3) { 0 => b.extend(gen_trivia(&mut r, false).bytes()), 1 => b.extend(b" ;end"), _ => {} }
+                emit(format!("triv {} {} {} {}", fast_flag(), ro, hex(&a), hex(&b)));
+            }
+        }
         "malformed" => {
             let mut prev: Vec<u8> = b"(a b)".to_vec();
             for _ in 0..count {
@@ -683,6 +707,10 @@ pub fn generate(family: &str, seed: u64, count: usize, emit: &mut dyn FnMut(Stri
                         if count >= 2 || (ri + pi) % 7 == (r.0 % 7) as usize {
                             emit(parse_op("b", ro, "r:v:6", text.as_bytes()));
                         }
+                        // the datum reader has its own copy of the token dispatch
+                        if (ri + 3 * pi) % 24 == 0 {
+                            emit(parse_op("b", ro, "r:d:6", text.as_bytes()));
+                        }
                     }
                 }
             }
@@ -695,8 +723,19 @@ pub fn generate(family: &str, seed: u64, count: usize, emit: &mut dyn FnMut(Stri
         }
         "pp" => {
             for _ in 0..count {
-                let (text, ro) = match r.below(4) {
+                let (text, ro) = match r.below(5) {
                     0 => (r.pick(PP_TEXTS).as_bytes().to_vec(), if r.chance(1, 2) { R_DEFAULT.to_string() } else { gen_ropts(&mut r) }),
+                    4 => {
+                        // numeric spellings the printer never emits, including literals beyond f64::MAX
+                        let lit = match r.below(4) {
+                            0 => { let n = 240 + r.below(80); format!("#x{}{}", r.pick(&["", "-"]), digits(&mut r, 16, n)) }
+                            1 => { let n = 330 + r.below(40); format!("#o{}", digits(&mut r, 8, n)) }
+                            2 => { let n = 1000 + r.below(60); format!("#b1{}", digits(&mut r, 2, n)) }
+                            _ => gen_num_literal(&mut r),
+                        };
+                        let text = if r.chance(1, 2) { lit.into_bytes() } else { format!("({} x)", lit).into_bytes() };
+                        (text, if r.chance(1, 2) { R_DEFAULT.to_string() } else { gen_ropts(&mut r) })
+                    }
                     1 => { let n = 1 + r.below(6); (gen_token_soup(&mut r, n, false), gen_ropts(&mut r)) }
                     _ => random_text(&mut r),
                 };
@@ -765,6 +804,7 @@ pub const PP_TEXTS: &[&str] = &[
     "a#b", "a\"b\"", "x|y", ".5", "..", "1+", "#%a", "+a", "-", "#vu8(1 2)", "#u8 (1)", "(quote a)", "(quote . a)", "#:", "#: a",
     "\"\\u00e9\"", "?a", "?\\(", "nil", "t", ":a", "a:", "(a.b)", "(a .b)", "#(1 . 2)", "18446744073709551616", "-9223372036854775809",
     "#x10000000000000000", "1e400", "#true", "#false", "#t#f", "(#t#f)", "a;c\nb", "\"a\nb\"", "#\\(", "#\\ ", "#\\;x",
+    "'.|a", "'.\"x", "`.|a", ",@.|a", "(x . .|a)", "#(.|a)", ".|a", "'.a", "(a '.|b)", "'+|a", "'a|b", "'a\"b\"",
 ];
 
 pub const TOKEN_CORPUS: &[&str] = &[
@@ -930,6 +970,6 @@ pub fn gen_num_literal(r: &mut Rng) -> String {
         8 => format!("{}{}e{}", sign, 1 + r.below(9), *r.pick(&[-324i32, -323, -322, -308, -307, 307, 308, 309, 400, -400, 2147483647, -2147483647, 22, 23, -22, -23])),
         9 => { let z = r.below(330); let n = 1 + r.below(20); format!("{}0.{}{}", sign, "0".repeat(z), digits(r, 10, n)) }
         10 => { let a = 1 + r.below(30); let b = 1 + r.below(12); let x = digits(r, 10, a); let y = digits(r, 10, b); format!("{}{}e{}", sign, x, y) }
-        _ => r.pick(&["1e21", "5e-324", "1e16", "1e-7", "1e3", "1.7976931348623157e308", "1.7976931348623159e308", "2e308", "4.9e-324", "2.4e-324", "2.5e-324", "0e999999999999", "1e-999999999999", "0.0e5", "00", "-0", "1E5", "1.0E+5", "9007199254740993", "9007199254740993.0", "18446744073709551615", "18446744073709551616", "-9223372036854775808", "-9223372036854775809", "#x-8000000000000000", "#xFFFFFFFFFFFFFFFF", "#x10000000000000000", "#b1e1", "#x1e1", "#d1e1", "#o18", "#b12", "#xg", "1.5e", "1.e5", ".5", "1..5", "1e5.5", "1e5e5", "123456789012345678901234567890", "0.1", "0.2", "0.3", "179769313486231570000000000000000000000000000000000000000000000000000000000000000000000000000000000000000000000000000000000000000000000000000000000000000000000000000000000000000000000000000000000000000000000000000000000000000000000000000000000000000000000000000000000000000000000000000000000000000000000"]).to_string(),
+        _ => r.pick(&["1e21", "5e-324", "1e16", "1e-7", "1e3", "1.7976931348623157e308", "1.7976931348623157081452742373e308", "1.7976931348623159e308", "2e308", "4.9e-324", "2.4e-324", "2.5e-324", "0e999999999999", "1e-999999999999", "0.0e5", "00", "-0", "1E5", "1.0E+5", "9007199254740993", "9007199254740993.0", "18446744073709551615", "18446744073709551616", "-9223372036854775808", "-9223372036854775809", "#x-8000000000000000", "#xFFFFFFFFFFFFFFFF", "#x10000000000000000", "#b1e1", "#x1e1", "#d1e1", "#o18", "#b12", "#xg", "1.5e", "1.e5", ".5", "1..5", "1e5.5", "1e5e5", "123456789012345678901234567890", "0.1", "0.2", "0.3", "179769313486231570000000000000000000000000000000000000000000000000000000000000000000000000000000000000000000000000000000000000000000000000000000000000000000000000000000000000000000000000000000000000000000000000000000000000000000000000000000000000000000000000000000000000000000000000000000000000000000000"]).to_string(),
     }
 }
